@@ -124,3 +124,35 @@ theorem C15_gzip_field_altered (N : Nat) (i j : Inp) {out : Array UInt8} {p' : N
   rw [hp7] at hr1
   simp only [R.bind, j1, if_neg hc1, if_neg hc2, j2, j3, j4, j5, if_neg hc3, j6, j7, hr1, hr2]
   rw [if_pos hdiff]; rfl
+
+/-- C15 (gzip, signature and method): nothing is returned unless the first three bytes are
+    `1f 8b 08` and the reserved flag bits are clear -/
+theorem C15_gzip_signature (N : Nat) (i : Inp) {out : Array UInt8} {p' : Nat}
+    (h : gunzipR N i 0 = .ok (out, p')) :
+    ∃ hdr p1, readBytes 10 i 0 = .ok (hdr, p1) ∧ hdr.getD 0 0 = 0x1f ∧ hdr.getD 1 0 = 0x8b ∧ hdr.getD 2 0 = 8 ∧
+      (hdr.getD 3 0).toNat &&& 0xE0 = 0 := by
+  unfold gunzipR at h
+  obtain ⟨hdr, p1, h1, h⟩ := bind_ok h
+  obtain ⟨hc1, h⟩ := ite_fail_ok h
+  obtain ⟨hc2, _⟩ := ite_fail_ok h
+  refine ⟨hdr, p1, h1, ?_, ?_, ?_, ?_⟩
+  · apply Decidable.byContradiction; intro hc; exact hc1 (Or.inl hc)
+  · apply Decidable.byContradiction; intro hc; exact hc1 (Or.inr (Or.inl hc))
+  · apply Decidable.byContradiction; intro hc; exact hc1 (Or.inr (Or.inr hc))
+  · apply Decidable.byContradiction; intro hc; exact hc2 hc
+
+/-- C15 (zlib, header): nothing is returned unless CMF/FLG form a valid zlib header (method 8, window
+    ≤ 32 KiB, check bits, no preset dictionary) -/
+theorem C15_zlib_header (N : Nat) (i : Inp) {out : Array UInt8} {p' : Nat}
+    (h : zlibR N i 0 = .ok (out, p')) :
+    ∃ cmf flg p1 p2, readByte i 0 = .ok (cmf, p1) ∧ readByte i p1 = .ok (flg, p2) ∧
+      (cmf.toNat * 256 + flg.toNat) % 31 = 0 ∧ flg.toNat &&& 32 = 0 ∧ cmf.toNat &&& 15 = 8 ∧ cmf.toNat / 16 ≤ 7 := by
+  unfold zlibR at h
+  obtain ⟨cmf, p1, h1, h⟩ := bind_ok h
+  obtain ⟨flg, p2, h2, h⟩ := bind_ok h
+  obtain ⟨hc, _⟩ := ite_fail_ok h
+  refine ⟨cmf, flg, p1, p2, h1, h2, ?_, ?_, ?_, ?_⟩
+  · apply Decidable.byContradiction; intro hx; exact hc (Or.inl hx)
+  · apply Decidable.byContradiction; intro hx; exact hc (Or.inr (Or.inl hx))
+  · apply Decidable.byContradiction; intro hx; exact hc (Or.inr (Or.inr (Or.inl hx)))
+  · apply Decidable.byContradiction; intro hx; exact hc (Or.inr (Or.inr (Or.inr (by omega))))
